@@ -471,6 +471,9 @@ INVARIANTS
     NoTornOrForeign
     ExactlyOnceSoFar
     AllDelivered
+    GhostAgrees
+    GhostNoOverrun
+    GhostWriterSafe
 CHECK_DEADLOCK FALSE
 """
 
@@ -659,6 +662,8 @@ INVARIANTS
     ReservedIgnored
     AllProcessed
     PollMakesProgress
+    GhostAgrees
+    GhostNoOverrun
 CHECK_DEADLOCK FALSE
 """
 
